@@ -67,7 +67,7 @@ class Engine:
         self.ivals = Intervals()
 
     # ------------------------------------------------------------------ solver
-    def check(self, *extra):
+    def check(self, *extra, _raw=False):
         t = time.time()
         if self.incremental:
             s = self._solver
@@ -96,14 +96,30 @@ class Engine:
             for e in extra:
                 s.add(e)
             r = s.check()
+            if r == z3.unknown:
+                # second opinion: the default solver stack (different arithmetic core), twice the time
+                s = z3.Solver()
+                s.set("timeout", 2 * self.timeout_ms)
+                for e in self.pc:
+                    s.add(e)
+                for e in extra:
+                    s.add(e)
+                r = s.check()
+                self.nretry = getattr(self, "nretry", 0) + 1
             m = s.model() if r == z3.sat else None
         self.nq += 1
         self.tq += time.time() - t
+        if not extra and not _raw:
+            # "give me a model of this path": an infeasible path is abandoned, an undecided one is inconclusive (never a None model)
+            if str(r) == "unknown":
+                raise Inconclusive("solver unknown on path condition")
+            if str(r) != "sat":
+                raise Abort()
         return str(r), m
 
     def _ensure_model(self):
         if self.model is None:
-            r, m = self.check()
+            r, m = self.check(_raw=True)
             if r == "unknown":
                 raise Inconclusive("solver unknown on path condition")
             if r != "sat":
